@@ -21,8 +21,8 @@ class B2BDUT(Module):
 class B2BHarness(Harness):
     """env = (cur, k, snap): cur = None (no request) | (addr, len, id) of the held request; k = beats handed over so far;
     snap = DUT registers before a stalled cycle (the next cycle must show the same registers) or None."""
-    conf_first = 40
-    conf_every = 211
+    conf_first = 30
+    conf_every = 17
     cap = 3_000_000
 
     def __init__(self, name, burst, size, caps=(0, 1, 2)):
